@@ -28,6 +28,16 @@ open Apko Apko.Path Apko.FS
   is what `archive/tar` delivers for the entry, which is exactly `Size` bytes or an error.  (It is a
   constraint on the harness: `fsHdr.Size` and `fsHdr.Content` are independent fields there.)
 
+**A conjunct the model cannot state.**  `hdrMode` (Model/FS.lean) reads the low twelve bits of the header's
+mode *field* and takes the type from the type flag — the headers the suites generate.  The real
+`te.header.FileInfo().Mode()` also decodes `c_ISDIR` / `c_ISLNK` / `c_ISBLK` / `c_ISCHR` / `c_ISFIFO` /
+`c_ISSOCK` from bits 12–15 of the field.  Probed on the pinned tree (`tarfs.WriteHeader` of a `'0'` entry):
+field `040644` gives a node with `ModeDir`, `dir = false` and a nil children map (`Mkdir` below it panics:
+assignment to entry in nil map — `DirBit` is violated in the real file system, not in the model);
+`0120644` a symbolic link with an empty target; `060644` / `010644` / `0140644` a block device / FIFO /
+socket node carrying a package entry.  For mode fields below `0o10000` (what every tar writer emits for `'0'`
+and `'2'` entries, and what the suites generate) the model is exact and this file applies.
+
 Type flags other than `'0' '1' '2' '5'` need no guard: `WriteHeader` refuses them (`unsupported file
 type`, `writeHeaderOp`'s last branch; FIFO / block / character device entries of a package never reach
 the file system). -/
